@@ -147,6 +147,11 @@ pub trait Property: Sync + 'static {
     fn fixed_cases() -> Vec<Self::Case> {
         vec![]
     }
+    /// case number `i` of a cheap deterministic stream (a pure function of seed and i), used where
+    /// the proptest machinery itself is too slow (under Miri)
+    fn direct_case(_seed: u64, _i: u64) -> Option<Self::Case> {
+        None
+    }
 }
 
 pub struct Args {
@@ -156,6 +161,8 @@ pub struct Args {
     pub shards: usize,
     pub cases_override: Option<u64>,
     pub evidence: bool,
+    /// evaluate this many cases of the direct stream instead of the proptest search
+    pub direct: u64,
 }
 
 #[derive(serde::Deserialize, Debug, Clone)]
@@ -314,10 +321,24 @@ pub fn run<P: Property>(args: &Args) -> i32 {
     }
     let exhaustive_evals = total.evaluations - ex_before;
 
+    // 2b. direct deterministic stream (Miri sub-tier)
+    if args.direct > 0 {
+        for i in 0..args.direct {
+            if let Some(case) = P::direct_case(args.seed, i) {
+                let v = run_case::<P>(&case, &mut total);
+                account(&v, || fp_json(&case), &mut total);
+                if let Verdict::Fail { sig, why } = v {
+                    failures.push(Failure { case, sig, why: format!("[direct stream] {why}") });
+                    break;
+                }
+            }
+        }
+        total.count("direct_stream_cases", args.direct);
+    }
     // 3. generated search
-    let n_cases = args.cases_override.unwrap_or_else(|| P::cases(args.tier));
-    let shards = args.shards.max(1);
-    let per = (n_cases + shards as u64 - 1) / shards as u64;
+    let n_cases = if args.direct > 0 { 0 } else { args.cases_override.unwrap_or_else(|| P::cases(args.tier)) };
+    let shards = if n_cases == 0 { 0 } else { args.shards.max(1) };
+    let per = if shards == 0 { 0 } else { (n_cases + shards as u64 - 1) / shards as u64 };
     let idh = fingerprint(&P::ID);
     let results: Vec<(Stats, Option<Failure<P::Case>>)> = std::thread::scope(|s| {
         let hs: Vec<_> = (0..shards)
@@ -425,6 +446,7 @@ pub fn run<P: Property>(args: &Args) -> i32 {
                 "generated_cases_requested": n_cases,
                 "shards": shards,
                 "known_findings_hit": known_hits,
+                "sub_runs": std::env::var("NDV_EXTRA_EVIDENCE").ok().and_then(|s| serde_json::from_str::<Value>(&s).ok()).unwrap_or(Value::Null),
             },
             "assumptions": P::assumptions(),
             "wall_s": wall,
